@@ -596,7 +596,7 @@ pub fn run(args: &Args) {
          foreign-topic ack; distinct by the action list.",
         20,
     );
-    let n = args.n(60, 3_000);
+    let n = args.n(60, 2_000);
     let workers: u64 = if n > 500 { 8 } else { 4 };
     let rt = tokio::runtime::Builder::new_multi_thread().worker_threads(8).enable_all().build().expect("runtime");
     let dir = tempfile::tempdir().expect("tempdir");
